@@ -157,6 +157,14 @@ package blockwise
 //@   trusted
 //@   ensures err == nil ==> size >= offset
 //
+// asksForBlock2: true only if the request carries a Block2 option that decodes to exactly that block number
+// (D20: the tail of a download whose earlier blocks are not held is delivered only to a request that asked
+// for that very block).
+//@ func asksForBlock2(req *pool.Message, num int64) (b bool)
+//@   requires req != nil
+//@   ensures [only-for-that-block] b ==> callCount(GetOptionUint32) == 1 && callArg(GetOptionUint32, 0, 0) == req && callArg(GetOptionUint32, 0, 1) == 23 && callRes(GetOptionUint32, 0, 1) == nil && callCount(DecodeBlockOption) == 1 && callArg(DecodeBlockOption, 0, 0) == callRes(GetOptionUint32, 0, 0) && callRes(DecodeBlockOption, 0, 3) == nil && callRes(DecodeBlockOption, 0, 1) == num
+//@   ensures [that-block-is-granted] callCount(DecodeBlockOption) == 1 && callRes(DecodeBlockOption, 0, 3) == nil && callRes(DecodeBlockOption, 0, 1) == num ==> b
+//
 //@ func (*BlockWise) processReceivedMessage(w *responsewriter.ResponseWriter, r *pool.Message, maxSzx SZX, next func(w *responsewriter.ResponseWriter, r *pool.Message), blockType message.OptionID, sizeType message.OptionID) (err error)
 //@   requires b != nil && w != nil && r != nil && maxSzx <= 7 && b.expiration > 0 && b.expiration < 4611686018427387904 && b.receivingMessagesCache != nil && b.receivingMessagesCache.Map != nil && b.sendingMessagesCache != nil && b.sendingMessagesCache.Map != nil
 //@   modifies anything
@@ -170,6 +178,8 @@ package blockwise
 //@   ensures [other-blocks-change-nothing] called(getPayloadFromCachedReceivedMessage) && callRes(getPayloadFromCachedReceivedMessage, 0, 2) == nil && callRes(DecodeBlockOption, 0, 1) * callRes(Size, 0, 0) != callRes(getPayloadFromCachedReceivedMessage, 0, 1) ==> notCalled(copyToPayloadFromOffset) && notCalled(next)
 //@   ensures [complete-delivered-once] called(copyToPayloadFromOffset) && callRes(copyToPayloadFromOffset, 0, 1) == nil && !callRes(DecodeBlockOption, 0, 2) && err == nil ==> callCount(next) == 1 && callArg(next, 0, 1) == callRes(getCachedReceivedMessage, 0, 0) && called(Delete) && callSeq(Delete, 0) < callSeq(next, 0) && notCalled(SetMessage)
 //@   ensures [lone-final-block-of-upload-refused] called(DecodeBlockOption) && callRes(DecodeBlockOption, 0, 3) == nil && blockType == 27 && !callRes(DecodeBlockOption, 0, 2) && callRes(DecodeBlockOption, 0, 1) != 0 && notCalled(getCachedReceivedMessage) ==> err != nil && notCalled(next)
+//@   ensures [lone-final-block-of-download-refused] called(DecodeBlockOption) && callRes(DecodeBlockOption, 0, 3) == nil && blockType == 23 && !callRes(DecodeBlockOption, 0, 2) && callRes(DecodeBlockOption, 0, 1) != 0 && notCalled(getCachedReceivedMessage) && !(called(asksForBlock2) && callRes(asksForBlock2, 0, 0)) ==> err != nil && notCalled(next)
+//@   ensures [asks-about-this-block] called(asksForBlock2) ==> callArg(asksForBlock2, 0, 0) == callRes(getSentRequest, 0, 0) && callArg(asksForBlock2, 0, 1) == callRes(DecodeBlockOption, 0, 1)
 //@   ensures [incomplete-not-delivered] called(getCachedReceivedMessage) && callRes(DecodeBlockOption, 0, 2) ==> notCalled(next)
 //@   ensures [asks-for-next-block] called(getCachedReceivedMessage) && callRes(DecodeBlockOption, 0, 2) && err == nil ==> callCount(SetMessage) == 1 && callCount(EncodeBlockOption) == 1 && callArg(EncodeBlockOption, 0, 0) == min(callRes(DecodeBlockOption, 0, 0), maxSzx) && callArg(EncodeBlockOption, 0, 2)
 //@   ensures [failure-forgets-transfer] err != nil && called(getCachedReceivedMessage) && callRes(getCachedReceivedMessage, 0, 2) == nil ==> called(Delete)
@@ -199,8 +209,9 @@ package blockwise
 // its entry is neither replaced nor removed, and nothing is sent (seed C03b-1 replaced the claim by a
 // plain Store). The entry of an accepted request is removed again when the call returns, on every path,
 // after the exchange. The request is handed to `do` at most once; a body that needs more than one block
-// goes out as a clone that carries block 0 (Block1 = NUM 0, M = 1, the negotiated size exponent), never
-// the original.
+// goes out as a clone that carries block 0 (Block1 = NUM 0, the given size exponent, and M = 1 exactly when
+// bytes remain after this message - with BERT the first message carries several 1024-byte blocks and may
+// hold the whole body: defect D19, repaired), never the original.
 //
 //@ func (*BlockWise) Do(r *pool.Message, maxSzx SZX, maxMessageSize uint32, do func(req *pool.Message) (*pool.Message, error)) (resp *pool.Message, err error)
 //@   requires b != nil && r != nil && b.sendingMessagesCache != nil && b.sendingMessagesCache.Map != nil && len(r.msg.Options) < 100000 && len(r.msg.Token) <= 8
@@ -212,7 +223,8 @@ package blockwise
 //@   ensures [nothing-before-the-claim] notCalled(LoadOrStore) ==> err != nil && resp == nil && notCalled(Delete) && notCalled(do)
 //@   ensures [entry-removed-after-the-exchange] called(LoadOrStore) && !callRes(LoadOrStore, 0, 1) ==> callCount(Delete) == 1 && callArg(Delete, 0, 1) == callArg(LoadOrStore, 0, 1) && (called(do) ==> callSeq(do, 0) < callSeq(Delete, 0))
 //@   ensures [sent-at-most-once] callCount(do) <= 1
-//@   ensures [large-body-goes-as-first-block] called(EncodeBlockOption) ==> callArg(EncodeBlockOption, 0, 0) == maxSzx && callArg(EncodeBlockOption, 0, 1) == 0 && callArg(EncodeBlockOption, 0, 2) && (called(do) ==> callArg(do, 0, 0) == callRes(AcquireMessage, 0, 0))
+//@   ensures [large-body-goes-as-first-block] called(EncodeBlockOption) ==> callArg(EncodeBlockOption, 0, 0) == maxSzx && callArg(EncodeBlockOption, 0, 1) == 0 && (called(do) ==> callArg(do, 0, 0) == callRes(AcquireMessage, 0, 0))
+//@   ensures [more-iff-bytes-remain] called(EncodeBlockOption) && called(bufferSize) ==> (callArg(EncodeBlockOption, 0, 2) <==> callRes(BodySize, 0, 0) > callRes(bufferSize, 0, 0))
 //@   ensures [small-body-goes-whole] called(do) && notCalled(EncodeBlockOption) ==> callArg(do, 0, 0) == r
 //@   ensures [first-block-options] called(do) && called(EncodeBlockOption) ==> callCount(SetOptionUint32) == 2 && callArg(SetOptionUint32, 0, 0) == callArg(do, 0, 0) && callArg(SetOptionUint32, 0, 1) == 60 && callArg(SetOptionUint32, 0, 2) == callRes(BodySize, 0, 0) && callArg(SetOptionUint32, 1, 0) == callArg(do, 0, 0) && callArg(SetOptionUint32, 1, 1) == 27 && callArg(SetOptionUint32, 1, 2) == callRes(EncodeBlockOption, 0, 0)
 //@   param do:
